@@ -10,6 +10,7 @@ SITES_FILE = os.path.join(common.LEAN, "BindgenModel", "Generated", "EnvSites.le
 KNOWN_TEXT = {
     "depfile_hash_dollar": "depfile_hash_dollar: a file name containing '#' or '$' is written unescaped into the depfile (e.g. `out: a#b c`); make truncates the list at '#' / drops '$x' — every observed case equals the model's prediction (fix proposed: fixes/C17-depfile-escape.diff)",
     "depfile_backslash": "depfile_backslash: a backslash not directly followed by a space is doubled by bindgen but make halves backslashes only before a blank (`a\\b` is read back as `a\\\\b`) — every observed case equals the model's prediction",
+    "user_include_arg_not_reported": "user_include_arg_not_reported: a header the user force-includes through a clang argument (`bindgen a.h --depfile d -- -include pre.h`) is read by clang but appears neither in the depfile nor in the include_file callbacks (filter_builtins drops the inclusion directives of the command-line buffer); clang -M lists it",
     "depfile_trailing_space": "depfile_trailing_space: the last prerequisite ends in a space; make strips trailing blanks before unquoting (`a\\ ` is read back as `a\\`) — every observed case equals the model's prediction",
 }
 
